@@ -6,9 +6,9 @@ from .. import common, meta
 
 LEVEL = "proof"
 RULE = ("Lean: M::C splits into namespace M / class C and A::B::C into frame A::B (models of SeparateNameSpaces / CalculateFrame); frames of differently wrapped groups differ, so all their map "
-        "keys differ, and writes under a decoy's frame are invisible to lookups under the group's frame. End-to-end: a generated self-contained class group (inheritance inside the group, instance "
+        "keys differ, and writes under a decoy's frame are invisible to lookups under the group's frame; the lexical lookup of an unqualified superclass (FindDefinedClassFrame, tied by the findns stream) answers the innermost enclosing namespace that defines the class. End-to-end: a generated self-contained class group (inheritance inside the group, instance "
         "and class methods, calls that resolve and calls that are reported) analysed at top level, wrapped in one and in two modules (outside references qualified), and next to a same-named decoy "
-        "class with different methods and parent; diagnostics and dbtp output must be identical up to the module prefix in messages and the row shift. Non-trivial = baseline prints at least 3 lines.")
+        "class with different methods and parent (in another module, or in the ENCLOSING module of a doubly wrapped group); diagnostics and dbtp output must be identical up to the module prefix in messages and the row shift. Non-trivial = baseline prints at least 3 lines.")
 
 
 def gen_group(rng, k):
@@ -61,6 +61,9 @@ def variant(G, U, names, wrap, decoy, rng):
         lines += decoy_lines(names, rng)
     for d, w in enumerate(wrap):
         lines.append("  " * d + "module %s" % w)
+        if decoy == "outer" and d == 0 and len(wrap) >= 2:
+            # a same-named class in the ENCLOSING namespace: the group's unqualified references must still find the innermost one
+            lines += ["  " + l for l in decoy_lines(names, rng)[1:-1]]
     gstart = len(lines)
     lines += ["  " * len(wrap) + g for g in G]
     for d in reversed(range(len(wrap))):
@@ -108,7 +111,7 @@ def run_e2e(ctx, n, tag):
     jobs = []
     for k in range(n):
         G, U, names = gen_group(rng, k)
-        vs = [((), None), (("Wm%d" % k,), None), (("Wm%d" % k, "Wn%d" % k), None), ((), rng.choice(["before", "after"])), (("Wm%d" % k,), "before")]
+        vs = [((), None), (("Wm%d" % k,), None), (("Wm%d" % k, "Wn%d" % k), None), ((), rng.choice(["before", "after"])), (("Wm%d" % k,), "before"), (("Wm%d" % k, "Wn%d" % k), "outer")]
         jobs.append((k, G, U, names, vs))
 
     def one(job):
@@ -147,21 +150,41 @@ def run_e2e(ctx, n, tag):
     return failures
 
 
+def gen_findns(rng):
+    segs = ["A", "B", "C", "Api", "V1"]
+    depth = rng.randint(0, 4)
+    frame = [rng.choice(segs) for _ in range(depth)]
+    cls = rng.choice(["Core", "Base", "A"])
+    tbl = []
+    for _ in range(rng.randint(0, 5)):
+        r = rng.random()
+        if r < 0.6 and frame:
+            f = frame[: rng.randint(1, len(frame))]          # an enclosing namespace
+        elif r < 0.8:
+            f = [rng.choice(segs) for _ in range(rng.randint(1, 3))]
+        else:
+            f = frame + [rng.choice(segs)]
+        tbl.append("%s~%s" % ("::".join(f), rng.choice(["Core", "Core", "Base", "A"])))
+    return "findns %s %s | %s" % ("::".join(frame) or "-", cls, ";".join(tbl))
+
+
 def run(ctx):
     common.build_ti(ctx)
+    common.build_godrv(ctx)
     proof_ok = common.prove(ctx)
+    dis = common.run_stream(ctx, "findns", [gen_findns(ctx.rng) for _ in range(ctx.pick(4000, 40000))])
     failures = run_e2e(ctx, ctx.pick(90, 900), "a")
 
     def search():
         return run_e2e(ctx, 250, "s")
 
-    common.conclude(ctx, proof_ok, {}, failures, search)
+    common.conclude(ctx, proof_ok, {"findns": dis}, failures, search)
     evidence(ctx)
 
 
 def evidence(ctx):
     common.write_evidence(ctx, LEVEL, RULE, trusted=common.BASE_TRUST + [
-        "modelled: SeparateNameSpaces / CalculateFrame / the frame component of every map key",
+        "modelled: SeparateNameSpaces / CalculateFrame / the frame component of every map key; FindDefinedClassFrame on `::`-segments (string cutting tied by the findns stream)",
         "not modelled: eval/class.go, eval/module.go, eval/namespace.go (end-to-end: top level vs wrapped vs decoy)"])
 
 
